@@ -15,7 +15,7 @@ RULE = ("parser-produced circuits x override dictionaries x pass sequences over 
 ASSUMPTIONS = ["a sequence in which a pass raises JaqalError is 'not applicable' and only counted",
                "reference full meaning from vf/meaning.py"]
 TIERS = {"quick": {"shards": 8, "budget_s": 160}, "thorough": {"shards": 16, "budget_s": 480}}
-REQUIRE = {"alias-chain-programs": 150, "programs-loading-their-gates-from-a-pulse-module": 50, "programs-with-the-gate-set-in-force": 150, "parser-flags-with-another-option": 500, "macro-named-like-a-bounding-gate": 30, "sequences-judged": 3000, "idempotence-checked": 1000, "parser-flag-combinations": 500, "reparse-checked": 3000,
+REQUIRE = {"override-dictionary-object-kept-for-a-program-with-other-declared-values": 150, "alias-chain-programs": 150, "programs-loading-their-gates-from-a-pulse-module": 50, "programs-with-the-gate-set-in-force": 150, "parser-flags-with-another-option": 500, "macro-named-like-a-bounding-gate": 30, "sequences-judged": 3000, "idempotence-checked": 1000, "parser-flag-combinations": 500, "reparse-checked": 3000,
            "seq-len-4": 300}
 
 PASSES = "SLMA"
@@ -361,6 +361,15 @@ def shard(ctx):
         seqs = rng.sample(SEQS, 12 if ctx.quick else 24) if (ctx.quick or i % 10) else SEQS
         for seq in seqs:
             process(ctx, dict({"prog": prog, "ov": ov, "seq": seq, "_dict": keep if ov else None}, **({"native": nat} if use_native else {})), seen)
+        if ov and keep is not None and chain_ov is None:
+            # the next program of the same caller: the same constants with other declared values (those the dictionary does
+            # not name), the same dictionary object
+            prog2 = tuple((("let", s_[1], (s_[2] + 1 if isinstance(s_[2], int) else s_[2] + 0.5)) if (isinstance(s_, tuple) and s_[0] == "let" and s_[1] not in ov
+                           and not isinstance(s_[2], bool) and (not isinstance(s_[2], int) or 0 <= s_[2] <= 2)) else s_) for s_ in prog)
+            if prog2 != prog:
+                rec.count("override-dictionary-object-kept-for-a-program-with-other-declared-values")
+                for seq in rng.sample(SEQS, 4):
+                    process(ctx, dict({"prog": prog2, "ov": ov, "seq": seq, "_dict": keep}, **({"native": nat} if use_native else {})), seen)
         for fl in ({"expand_macro": True}, {"expand_let": True}, {"expand_let_map": True},
                    {"expand_macro": True, "expand_let": True}, {"expand_macro": True, "expand_let_map": True},
                    {"expand_let": True, "expand_let_map": True}):
